@@ -91,7 +91,7 @@ package linter
 //@   pure
 //@   ensures @sizeof-or-fail ok == sizeofSucceeds(ctx.SizesInfo, typ) && (ok ==> size == sizesSizeof(ctx.SizesInfo, typ)) && (!ok ==> size == 0)
 
-//@ spec sizeOKSpec(ctx *CheckerContext, typ types.Type) bool = !typeIs(typ, "*types.TypeParam") && !(typeIs(typ, "*types.Named") && namedTypeParams(cast(typ, "*types.Named")) != nil) && sizeofSucceeds(ctx.SizesInfo, typ)
+//@ spec sizeOKSpec(ctx *CheckerContext, typ types.Type) bool = !typeIs(typ, "*types.TypeParam") && !(typeIs(typ, "*types.Named") && namedTypeParams(cast(typ, "*types.Named")) != nil && namedTypeArgCount(cast(typ, "*types.Named")) == 0) && sizeofSucceeds(ctx.SizesInfo, typ)
 
 // (C03, C13: the answer is a function of the sizes object and the type alone - nothing remembered from earlier calls)
 //@ func (*CheckerContext).SizeOf
